@@ -12,7 +12,9 @@
      M k {hdr body}* | err [frame]
      Q equip dev k {now t4 lb rest}* | step ; step ...   step = P<err> | A nd {frame}* nv {kind hdr}* c0..c5 err
      X equip dev hsmshdr body | wire                      (e2e: block transmissions seen on the line)
-     Y equip dev k {gap_exceeds_t4 hdr body}* | nd {frame}*   (e2e: handler deliveries)
+     Y equip dev k {gap_exceeds_t4 hdr body | R}* | nd {frame}*   (e2e: handler deliveries; R = line drop
+                                                                + reconnect: a new connection generation
+                                                                starts from a FRESH assembler state)
 *)
 let split_bar line =
   match String.index_opt line '|' with
@@ -136,6 +138,7 @@ let check _ln line =
     let rec go k toks st now acc =
       if k = 0 then List.rev acc else
         match toks with
+        | "R" :: tl -> go (k - 1) tl astate0 now acc
         | gap :: hdr :: body :: tl ->
           let now = if b01 gap then Z.add now (zi 1000) else now in
           let e = { e_time = now; e_t4 = zi 10; e_blk = { b_hdr = zb hdr; b_body = zb body } } in
